@@ -75,6 +75,8 @@ func C04(run *vf.Run) {
 	for _, f := range fams {
 		c04Family(run, f.name, f.cfg, f.proj, reps)
 	}
+	// the number of satisfying values is not bounded in Engine.tla: K values under distinct names, repeated
+	scaleMatchData(run, "cache")
 }
 
 func c04Family(run *vf.Run, name, cfg string, base eng.ProjOpts, reps int) {
